@@ -14,7 +14,7 @@ expectation holds the two results must be identical.
 from harness.props import _joins as J
 
 PID = "C11"
-TRANSLATE = ["EqJoin.v"]     # translator tie: coq/gen_proofs/EqJoin.v is re-proved against definitions regenerated from /repo
+TRANSLATE = ["EqJoin.v", "EqJoinIndex.v"]     # translator tie: coq/gen_proofs/EqJoin.v is re-proved against definitions regenerated from /repo
 PRELUDE = J.PRELUDE_FMT % PID
 FAILING = "C11.failing"
 SHARD = 300
